@@ -224,6 +224,7 @@ def install_opaque(I, methods=None, attrs=None):
 
 # ---- abstract loaders (callees of the choice / prefix loaders and of the environment) -------------
 OUT_RETURN, OUT_TNF, OUT_TNFS, OUT_OTHER, OUT_UNDEF = 0, 1, 2, 3, 4
+OUT_NOSOURCE = 5   # the member has has_source_access == False: BaseLoader.get_source raises RuntimeError
 OUT_CLASSES = {OUT_TNF: TemplateNotFound, OUT_TNFS: TemplatesNotFound, OUT_OTHER: OtherError, OUT_UNDEF: jinja2.exceptions.UndefinedError}
 
 
@@ -273,9 +274,13 @@ class FakeLoader(jinja2.BaseLoader):
 
     def __init__(self, ident, outcome):
         self.ident, self.outcome, self.calls = ident, outcome, []
+        if outcome == OUT_NOSOURCE:
+            self.has_source_access = False   # like ModuleLoader
 
     def _do(self, what, name, *rest):
         self.calls.append((what, name) + rest)
+        if self.outcome == OUT_NOSOURCE and what == "get_source":
+            return jinja2.BaseLoader.get_source(self, rest[0], name)   # RuntimeError: cannot provide access to the source
         if self.outcome == OUT_RETURN:
             return ("result", self.ident, what, name)
         if self.outcome == OUT_TNF:
@@ -357,6 +362,27 @@ class Split(LVC):
             return [(st, st.alloc(HList(arr=c.S, n=c.N, k="str")))]
 
         I.specs["str.split"] = split
+
+        # pure string functions from the library are ARBITRARY functions str -> str here: whatever they do to a piece,
+        # the contract is about the pieces that are RETURNED (validation before a transformation proves nothing)
+        import unicodedata
+
+        def normalize(I_, st, args, kwargs, node):
+            if len(args) != 2 or kwargs:
+                return None
+            f = z3.Function("unicodedata.normalize", S_, S_, S_)
+            return [(st, Sym(f(to_term(args[0], "str"), to_term(args[1], "str")), "str"))]
+
+        I.specs[("fn", id(unicodedata.normalize))] = normalize
+        flag_unexpected = I.on_unknown_call
+
+        def unknown(I_, st, fn, args, kwargs, node):
+            rs = flag_unexpected(I_, st, fn, args, kwargs, node)   # recorded: the no_side_effect clause rejects it
+            if any(isinstance(a, Sym) and a.k == "str" for a in args) or (isinstance(fn, BoundMethod) and isinstance(fn.recv, Sym) and fn.recv.k == "str"):
+                return [(s, fresh("unknown_str_fn", "str")) for s, _ in rs]
+            return rs
+
+        I.on_unknown_call = unknown
 
         def inv(ctx):
             st, k = ctx.st, ctx.k
@@ -461,7 +487,9 @@ class patched_platform:
         os.sep, os.altsep, os.path = self.saved
 
 
-SPLIT_FRAGMENTS = ["..", ".", "", "a", "b.html", "\\", "a\\..", "..\\a", "C:", "...", " ..", "é"]
+# NFKC / case-folding look-alikes of "." and "/": fullwidth full stop, one dot leader, small full stop, fullwidth solidus
+LOOKALIKES = ["\uff0e\uff0e", "\u2024\u2024", "\ufe52\ufe52", ".\uff0e", "\uff0fa", "\uff3ca"]
+SPLIT_FRAGMENTS = ["..", ".", "", "a", "b.html", "\\", "a\\..", "..\\a", "C:", "...", " ..", "é"] + LOOKALIKES
 
 
 def small_templates(max_segments):
@@ -500,7 +528,8 @@ def replay_split(w):
 # ----------------------------------------------------------------------------------------------
 
 fs_isfile = z3.Function("fs.isfile", S_, B_)
-fs_mtime = z3.Function("fs.mtime", S_, I_)   # mtimes are ordered: modelled as integers (ticks)
+fs_mtime = z3.Function("fs.mtime", S_, I_)   # exact mtimes are ordered and finer than a second: integer ticks (ns)
+TICKS_PER_SECOND = 10 ** 9
 fs_text = z3.Function("fs.read_text", S_, S_, S_)   # (path, encoding) -> str
 fs_bytes = z3.Function("fs.read_bytes", S_, Obj)
 pjoin = z3.Function("posixpath.join", S_, SArr, I_, S_)
@@ -529,6 +558,15 @@ class FSModel:
     def __init__(self, platform):
         self.platform = platform
         self.handles = {}
+        self.fds = {}
+        self.stats = {}
+
+    # the file system as it is NOW (during get_source: FS-STABLE; subclasses model later epochs)
+    def cur_exists(self, p):
+        return fs_isfile(p)
+
+    def cur_mtime(self, p):
+        return fs_mtime(p)
 
     def install(self, I):
         install_star_hook(I)
@@ -620,7 +658,68 @@ class FSModel:
         def get_data(I_, st, recv, args, kwargs, node):
             return m.get_data(I_, st, recv, args, kwargs, node)
 
-        install_opaque(I, methods={"read": read, "decode": decode, "get_data": get_data})
+        # ---- os.stat / os.fstat: a stat result knows the exact mtime (attribute st_mtime, what getmtime returns) and,
+        # indexed as a tuple, the mtime TRUNCATED to whole seconds:  os.stat(p)[ST_MTIME] == floor(os.stat(p).st_mtime)
+        import stat as stat_mod
+
+        def fileno(I_, st, recv, args, kwargs, node):
+            if "file" not in recv.tags or args or kwargs:
+                return None
+            fd = fresh("fd", "int", tags=("fd",))
+            m.fds[str(fd.t)] = recv
+            st.trace.append(Event("call", "fileno()", [recv], None, fd, lineno=getattr(node, "lineno", None)))
+            return [(st, fd)]
+
+        def stat_value(st, path, args, kwargs, node, name):
+            r = fresh("stat_result", "obj", tags=("stat",))
+            m.stats[str(r.t)] = m.cur_mtime(to_term(path, "str"))
+            A.call_event(st, name, args, kwargs, r, node)
+            return r
+
+        def os_fstat(I_, st, args, kwargs, node):
+            h = m.fds.get(str(args[0].t)) if isinstance(args[0], Sym) else None
+            if h is None:
+                return None
+            path = m.handles[str(h.t)][0]
+            return [(st, stat_value(st, path, args, kwargs, node, "os.fstat"))]
+
+        def os_stat(I_, st, args, kwargs, node):
+            out = []
+            for s, b in I_.fork_bool(st, m.cur_exists(to_term(args[0], "str"))):
+                if b:
+                    out.append((s, stat_value(s, args[0], args, kwargs, node, "os.stat")))
+                else:
+                    e = Exc(FileNotFoundError, (), tag="os.stat", origin=getattr(node, "lineno", None))
+                    e.from_call = "os.stat"
+                    A.call_event(s, "os.stat", args, kwargs, e, node)
+                    out.append((s, Raised(e)))
+            return out
+
+        reg(os.fstat, os_fstat)
+        reg(os.stat, os_stat)
+
+        def whole_seconds(st, ticks):
+            sec = fresh("whole_seconds", "int")
+            st.assume(TICKS_PER_SECOND * sec.t <= ticks, ticks < TICKS_PER_SECOND * sec.t + TICKS_PER_SECOND)
+            return sec
+
+        def getitem_obj(I_, st, args, kwargs, node):
+            o, idx = args
+            if not (isinstance(o, Sym) and "stat" in o.tags):
+                return None
+            if idx == stat_mod.ST_MTIME:
+                return [(st, whole_seconds(st, m.stats[str(o.t)]))]
+            return [(st, fresh("stat_field", "int"))]
+
+        I.specs["getitem_obj"] = getitem_obj
+
+        def st_mtime(I_, st, o, node):
+            if "stat" not in o.tags:
+                return None
+            return [(st, Sym(m.stats[str(o.t)], "int"))]
+
+        install_opaque(I, methods={"read": read, "decode": decode, "get_data": get_data, "fileno": fileno},
+                       attrs={"st_mtime": st_mtime, "st_mtime_ns": st_mtime})
 
         def str_join(I_, st, args, kwargs, node):
             return [(st, fresh("joined", "str"))]
@@ -777,7 +876,7 @@ class FSGetSource(LVC):
             return False
         conj = []
         for e in out.st.trace:
-            if e.kind == "call" and e.name in ("os.path.isfile", "os.path.getmtime", "open"):
+            if e.kind == "call" and e.name in ("os.path.isfile", "os.path.getmtime", "open", "os.stat"):
                 i = z3.Int(fresh_name("i"))
                 conj.append(z3.Exists([i], z3.And(0 <= i, i < self.SPn, to_term(e.args[0], "str") == self.cand(i))))
             if e.kind == "call" and e.name == "posixpath.join":
@@ -854,13 +953,47 @@ class fake_fs:
             if p not in me.files:
                 raise FileNotFoundError(p)
             data = "content of " + p
-            return io.BytesIO(data.encode("utf-8")) if "b" in mode else io.StringIO(data)
+            f = FakeBytes(data.encode("utf-8")) if "b" in mode else FakeText(data)
+            f.fake_fd = 900000 + len(me.fd_paths)
+            me.fd_paths[f.fake_fd] = p
+            return f
 
+        class FakeText(io.StringIO):
+            def fileno(self):
+                return self.fake_fd
+
+        class FakeBytes(io.BytesIO):
+            def fileno(self):
+                return self.fake_fd
+
+        def stat_result(p):
+            if p not in me.files:
+                raise FileNotFoundError(p)
+            t = me.mtime
+            return os.stat_result((0o100644, 1, 1, 1, 0, 0, 10, int(t), int(t), int(t), float(t), float(t), float(t)))
+
+        self.fd_paths = {}
+        self.saved_os = (os.stat, os.fstat)
+        real_stat, real_fstat = self.saved_os
+
+        def stat_(p, *a, **kw):
+            if not from_loader():
+                return real_stat(p, *a, **kw)
+            me.log.append(("stat", p))
+            return stat_result(p)
+
+        def fstat_(fd):
+            if fd not in me.fd_paths:
+                return real_fstat(fd)
+            return stat_result(me.fd_paths[fd])
+
+        os.stat, os.fstat = stat_, fstat_
         mod.isfile, mod.getmtime = isfile, getmtime
         L.open = open_
         return self
 
     def __exit__(self, *a):
+        os.stat, os.fstat = self.saved_os
         self.mod.isfile, self.mod.getmtime = self.saved
         del L.open
         self.pp.__exit__()
@@ -1260,12 +1393,87 @@ class Choice(LVC):
         return replay_choice(w)
 
 
+has_src = z3.Function("loader.has_source_access", Obj, B_)
+
+
+class ChoiceSourceless(Choice):
+    """ChoiceLoader.get_source when members may be loaders WITHOUT source access (ModuleLoader: has_source_access is
+    False and BaseLoader.get_source raises RuntimeError before it looks for the name).  Such a member does not 'have'
+    the name as far as get_source is concerned: the statement's "resolve to the first loader that has it / TemplateNotFound
+    exactly when none has it" makes the search go on."""
+
+    def __init__(self):
+        Choice.__init__(self, "get_source")
+        self.name = "C28.choice.get_source[sourceless]"
+
+    def configure(self, I):
+        Choice.configure(self, I)
+        base = abstract_loader_method(self.method, self.oc, self.res, name_index=1)
+
+        def get_source(I_, st, recv, args, kwargs, node):
+            out = []
+            for s, b in I_.fork_bool(st, has_src(recv.t)):
+                if b:
+                    out += base(I_, s, recv, args, kwargs, node)
+                else:
+                    e = Exc(RuntimeError, ("cannot provide access to the source",), tag="nosource", origin=getattr(node, "lineno", None))
+                    e.from_call = self.method
+                    A.call_event(s, self.method, [recv] + list(args), kwargs, e, node)
+                    out.append((s, Raised(e)))
+            return out
+
+        def has_source_access(I_, st, o, node):
+            return [(st, Sym(has_src(o.t), "bool"))]
+
+        install_opaque(I, methods={self.method: get_source}, attrs={"has_source_access": has_source_access})
+
+    def fails(self, j):
+        return z3.Or(z3.Not(has_src(z3.Select(self.LD, j))), is_tnf_family(self.oc_at(j)))
+
+    def all_tnf_before(self, k):
+        j = z3.Int(fresh_name("j"))
+        return z3.ForAll([j], z3.Implies(z3.And(0 <= j, j < k), self.fails(j)))
+
+    def first_is(self, v):
+        i, c = Choice.first_is(self, v)
+        return i, z3.And(c, has_src(z3.Select(self.LD, i)))
+
+    def is_passthrough(self, out):
+        return out.raised and out.value.cls is RuntimeError and out.value.tag == "nosource"
+
+    def p_outcome(self, pre, out):
+        if self.is_passthrough(out):
+            return None  # decided by the next clause
+        return Choice.p_outcome(self, pre, out)
+
+    def p_sourceless(self, pre, out):
+        """the RuntimeError of a member without source access never ends the search"""
+        return False if self.is_passthrough(out) else None
+
+    posts = [("first_available_loader", p_outcome), ("sourceless_member_does_not_end_the_search", p_sourceless), ("arguments_passed_through", Choice.p_calls)]
+
+    def concretize(self, model, pre, out):
+        w = Choice.concretize(self, model, pre, out)
+        for i in range(len(w["outcomes"])):
+            if model_value(model, has_src(z3.Select(self.LD, z3.IntVal(i)))) is not True:
+                w["outcomes"][i] = OUT_NOSOURCE
+        return w
+
+    def finding_key(self, res):
+        w = res.witness or {}
+        if "sourceless_member" in res.name and OUT_NOSOURCE in (w.get("outcomes") or []):
+            return "member-without-source-access"
+        return "other"
+
+
 def replay_choice(w):
     objs = {}
     loaders = [objs.setdefault(i, FakeLoader(i, o)) for i, o in zip(w["ids"], w["outcomes"])]
     outs = [l.outcome for l in loaders]
     want = ("raise", "TemplateNotFound", "NAME")
     for l in loaders:
+        if l.outcome == OUT_NOSOURCE and w["method"] == "get_source":
+            continue   # it cannot say whether it has the name: the search goes on
         if l.outcome == OUT_RETURN:
             want = ("ok", ("result", l.ident, w["method"], "NAME"))
             break
@@ -1522,7 +1730,7 @@ def bounded_normpath(task, tier, seed):
     return rs
 
 
-TREE_FRAGMENTS = ["..", ".", "", "a", "sub", "secret.txt", "t.html", "\\..", "..\\secret.txt", "C:", "~"]
+TREE_FRAGMENTS = ["..", ".", "", "a", "sub", "secret.txt", "t.html", "\\..", "..\\secret.txt", "C:", "~", "\uff0e\uff0e", ".\u2024", "\uff0fsecret.txt"]
 
 
 def bounded_tree(task, tier, seed):
@@ -1649,14 +1857,14 @@ TASKS = [
     FSGetSource("posix"), FSGetSource("nt"),
     LemmaTask("posix"), LemmaTask("nt"),
     PkgGetSource("posix", False), PkgGetSource("nt", False), PkgGetSource("posix", True), PkgGetSource("nt", True),
-    Choice("get_source"), Choice("load"),
+    Choice("get_source"), Choice("load"), ChoiceSourceless(),
     Prefix("get_loader"), Prefix("get_source"), Prefix("load"),
     make_bounded("C28.bounded.dependency_specs", bounded_deps,
                  "posixpath.join: 11 bases x up to 3 (thorough 4) pieces from 10 fragments per platform; str.split: all strings of length <= 5 (6) over {a . / \\ :}"),
     make_bounded("C28.bounded.package_normpath", bounded_normpath,
                  "6 roots per platform x 1..3 (thorough 4) good pieces from 10 fragments, posixpath.normpath and ntpath.normpath"),
     make_bounded("C28.bounded.sandbox_tree", bounded_tree,
-                 "all names of 1..3 (thorough 4) segments over 11 fragments ('..', '.', '', backslash forms, drive letter, ...) plus absolute names, "
+                 "all names of 1..3 (thorough 4) segments over 14 fragments ('..', '.', '', backslash forms, drive letter, Unicode look-alikes of '..' and '/', ...) plus absolute names, "
                  "on FileSystemLoader, PackageLoader and Choice[Prefix, FileSystem] over a real directory tree with sentinel files outside"),
 ]
 
